@@ -125,14 +125,15 @@ type recKey struct{}
 
 type recorder struct {
 	mu    sync.Mutex
-	deliv map[string][]int // node path -> payloads received (concatenated over executions)
+	delivs map[string][][]int // node path -> payloads received, per execution
+	loop  map[string]int     // Back relay path -> how often the loop condition was asked
 	ran   map[string]int   // node path -> number of executions
 	fired map[string][]int // RunInfo.Name (node path) -> handler ids whose OnStart fired
 	seed  uint64
 }
 
 func newRecorder(seed uint64) *recorder {
-	return &recorder{deliv: map[string][]int{}, ran: map[string]int{}, fired: map[string][]int{}, seed: seed}
+	return &recorder{delivs: map[string][][]int{}, loop: map[string]int{}, ran: map[string]int{}, fired: map[string][]int{}, seed: seed}
 }
 
 func recOf(ctx context.Context) *recorder {
@@ -156,7 +157,7 @@ func visit(ctx context.Context, path string, ids []int) error {
 	}
 	r.mu.Lock()
 	r.ran[path]++
-	r.deliv[path] = append(r.deliv[path], ids...)
+	r.delivs[path] = append(r.delivs[path], append([]int{}, ids...))
 	r.mu.Unlock()
 	// a node marked "rerun" asks for an interrupt the first time it executes in the session
 	// (after having recorded what it received in this call)
